@@ -77,6 +77,10 @@ SILENT = [
     ("tealer/analyses/dataflow/transaction_context/txn_types.py", "        U = set(self.UNIVERSAL_SETS[self.TRANSACTION_TYPE_KEY])", "        U = set(self._universal_set(self.TRANSACTION_TYPE_KEY))", ["C07", "C14"]),
     ("tealer/teal/instructions/parse_instruction.py", "    if x.startswith(\"0x\"):\n        return int(x[2:], 16)\n    if x.startswith(\"0\"):", "    if x[:2] == \"0x\":\n        return int(x[2:], 16)\n    if x[:1] == \"0\":", ["C15", "C16"]),
     ("tealer/printers/call_graph.py", "            graph[subroutine.name] = set(\n                map(lambda bi: bi.subroutine.name, subroutine.caller_blocks)\n            )", "            graph[subroutine.name] = {bi.subroutine.name for bi in subroutine.caller_blocks}", ["C05", "C18", "C17"]),
+    ("tealer/utils/regex/regex.py", "    reaching: Set[Instruction] = set(match[0] for match in matches)\n    worklist: List[Instruction] = list(reaching)\n    while worklist:\n        ins = worklist.pop()\n        for prev_ins in ins.prev:\n            if prev_ins in visited and prev_ins not in covered:\n                covered.add(prev_ins)\n                if prev_ins not in reaching:\n                    reaching.add(prev_ins)\n                    worklist.append(prev_ins)",
+     "    reaching: Set[Instruction] = set(match[0] for match in matches)\n    grew = True\n    while grew:\n        grew = False\n        for ins in reachable:\n            if ins in covered:\n                continue\n            if any(n in reaching for n in ins.next):\n                covered.add(ins)\n                reaching.add(ins)\n                grew = True", ["C20"]),
+    ("tealer/utils/regex/regex.py", "    stack: List[Instruction] = [start]\n    while stack:\n        ins = stack.pop()\n        if ins in seen:\n            continue\n        seen.add(ins)\n        reachable.append(ins)\n        # reversed: the first next instruction is explored first\n        stack.extend(reversed(ins.next))\n    return reachable",
+     "    def visit(ins: Instruction) -> None:\n        if ins in seen:\n            return\n        seen.add(ins)\n        reachable.append(ins)\n        for next_ins in ins.next:\n            visit(next_ins)\n\n    visit(start)\n    return reachable", ["C20"]),
     ("tealer/teal/parse_functions.py", "    for bb_copy, bb_orig in zip(all_bbs, original_blocks):\n        bb_copy.idx = bb_orig.idx", "    for position, bb_copy in enumerate(all_bbs):\n        bb_copy.idx = original_blocks[position].idx", ["C12"]),
 ]
 
